@@ -417,11 +417,15 @@ def oracle_triangle(ctx, cfg, bank, verts, r, viol):
     kind, rate, n = cfg["kind"], cfg["rate"], cfg["num_filts"]
     doc = doc_tri if kind == "tri" else doc_fbank
     widths = [r.choice([8, 16, 31, 32, 50]), r.choice([64, 100, 127, 128, 256]), r.choice([257, 400, 512, 1000, 1024])]
+    # the same bank object is then asked for widths whose OUTPUT LENGTHS collide (half of an even width, half of the
+    # next odd width, full response of that length): anything cached per bank must be keyed by the width
+    w2 = 2 * r.randrange(8, 40)
+    widths += [w2, w2 + 1, w2 // 2 + 1]
     filts = sorted({0, n - 1, r.randrange(n)})
     for W in widths:
         for i in filts:
             l, c, rr = verts[i], verts[i + 1], verts[i + 2]
-            for half in (False, True):
+            for half in ((True, False) if W == w2 + 1 else (False, True)):
                 try:
                     res = np.asarray(bank.get_frequency_response(i, W, half=half))
                 except Exception as e:
